@@ -113,3 +113,10 @@ ASSUMPTIONS = ['malloc never fails (allocation failure is C15)',
                'vector / bit set harnesses: Arena::_alloc_reusable and _release_dynamic are harness stubs (one typed 512-byte pool, allocated size reported as the real arena does)',
                'bit set and embedded-string harnesses: memset (and for the bit sets memcpy/memmove) are byte loops for the solver (CBMC\'s built-in models lose writes of symbolic length into the middle of an object)',
                'hash harnesses: Arena::_alloc_reusable_zeroed is a harness stub returning a zeroed typed pool (the arena itself is checked by the h_arena_* harnesses)']
+
+# ---- String at the embedded/heap boundary (lengths 29..33), added after seeded change C18-m3
+import re as _re, os as _os
+UNITS.append(Unit('string_boundary', harness=['h_string_boundary.cpp'], repo_units=['asmjit/core/string.cpp'], cbmc_defines=['VERIF_MEM_LOOPS', 'VERIF_MEM_LOOPS_ALL']))
+for _fn in _re.findall(r'^HARNESS (h_\w+)\(\)', open(_os.path.join(_os.path.dirname(_os.path.abspath(__file__)), 'h_string_boundary.cpp')).read(), _re.M):
+    HARNESSES.append(Harness('string_boundary', _fn, unwind=42, mem_gb=4, timeout=600,
+                             bounds='embedded String brought to exactly the number of characters in the harness name by assign / append / append_chars; contents symbolic, lengths constants'))
